@@ -46,6 +46,17 @@ def handle (line : String) : String :=
         let m := skipped rep upd
         let ok := C18.rolling rep upd sk
         pure s!"case {id} match={if m == sk then 1 else 0} impl={if ok then "ok" else "rolling"} model={if C18.rolling rep upd m then "ok" else "rolling"} tags {if rep == upd then "settled" else "rolling"}"
+      | 3 => do
+        let calls ← many (do
+          let now ← tok; let r ← tok; let u ← tok; let rd ← tok; let ob ← tokBool
+          pure ((now, (⟨r, u, rd⟩ : StsStatus)), ob))
+        let cs := calls.map (·.1)
+        let obs := calls.map (·.2)
+        let m := replicasRun none cs
+        let ok := C18.rollingHistory cs obs
+        let tag := if cs.any (fun c => c.2.replicas != c.2.updated && c.2.ready != c.2.replicas) then "rolling-notready" else
+          if cs.any (fun c => c.2.replicas != c.2.updated) then "rolling" else "settled"
+        pure s!"case {id} match={if m == obs then 1 else 0} impl={if ok then "ok" else "rollingHistory"} model={if C18.rollingHistory cs m then "ok" else "rollingHistory"} tags {tag}"
       | k => throw s!"bad kind {k}" : P String).run toks
     match r with
     | .error e => s!"bad-op {e}"
